@@ -176,11 +176,12 @@ impl<'a> Walk<'a> {
     }
 }
 
-struct Loaded { names: Vec<String>, entries: Vec<(usize, usize)>, abort_panics: Vec<bool>, plain: Result<(), String>, listener_agrees: bool }
+struct Loaded { grules: Vec<String>, names: Vec<String>, entries: Vec<(usize, usize)>, abort_panics: Vec<bool>, plain: Result<(), String>, listener_agrees: bool }
 
 fn load(cfg: &Cfg) -> Loaded {
     let (_, rules) = pest_meta::parse_and_optimize(cfg.grammar).expect("grammar");
     let mut names: Vec<String> = rules.iter().map(|r| r.name.clone()).collect();
+    let grules = names.clone();
     let log: Arc<Mutex<Vec<(String, usize)>>> = Arc::new(Mutex::new(Vec::new()));
     let l2 = Arc::clone(&log);
     let vm = pest_vm::Vm::new_with_listener(rules.clone(), Box::new(move |rule, pos| {
@@ -215,7 +216,7 @@ fn load(cfg: &Cfg) -> Loaded {
         }));
         abort_panics.push(pvharness::catch(|| { let _ = vm.parse(cfg.rule, cfg.input); }).is_err());
     }
-    Loaded { names, entries, abort_panics, plain, listener_agrees }
+    Loaded { grules, names, entries, abort_panics, plain, listener_agrees }
 }
 
 fn show_event(ev: &DebuggerEvent, ld: &Loaded) -> String {
@@ -230,11 +231,11 @@ fn show_event(ev: &DebuggerEvent, ld: &Loaded) -> String {
 // the controller thread: executes the command list against the real DebuggerContext
 // ------------------------------------------------------------------------------------------
 #[derive(Clone, Debug)]
-enum Cmd { Run, Cont, Recv, Add(usize), Del(usize) }
+enum Cmd { Run, Cont, Recv, Add(usize), Del(usize), AddAll }
 
 fn parse_cmds(s: &str) -> Vec<Cmd> {
     s.split(',').filter(|x| !x.is_empty()).map(|x| match &x[..1] {
-        "R" => Cmd::Run, "K" => Cmd::Cont, "V" => Cmd::Recv,
+        "R" => Cmd::Run, "K" => Cmd::Cont, "V" => Cmd::Recv, "L" => Cmd::AddAll,
         "A" => Cmd::Add(x[1..].parse().unwrap()), "D" => Cmd::Del(x[1..].parse().unwrap()),
         _ => panic!("bad command {}", x),
     }).collect()
@@ -298,6 +299,7 @@ fn controller(cfg: &'static Cfg, ld: Arc<Loaded>, cap: usize, bps: Vec<usize>, c
             }
             Cmd::Add(r) => ctx.add_breakpoint(ld.names[r].clone()),
             Cmd::Del(r) => ctx.delete_breakpoint(&ld.names[r]),
+            Cmd::AddAll => ctx.add_all_rules_breakpoints().expect("grammar loaded"),
         }
     }
     if !aborted {
@@ -443,7 +445,8 @@ fn main() {
             writeln!(out, "MODE\t{}", if seen == 0 { "nohook" } else if fin { "fixed" } else { "literal" }).unwrap();
             for (c, ld) in CFGS.iter().zip(loaded.iter()) {
                 let es: Vec<String> = ld.entries.iter().zip(ld.abort_panics.iter()).map(|((r, p), b)| format!("{}:{}:{}", r, p, *b as u8)).collect();
-                writeln!(out, "CFG\t{}\t{}\t{}\t{}", c.id, es.join(","), if ld.plain.is_ok() { "E" } else { "X" }, ld.names.join(",")).unwrap();
+                let gr: Vec<String> = ld.grules.iter().map(|g| ld.names.iter().position(|n| n == g).unwrap().to_string()).collect();
+                writeln!(out, "CFG\t{}\t{}\t{}\t{}\t{}", c.id, es.join(","), if ld.plain.is_ok() { "E" } else { "X" }, ld.names.join(","), gr.join(",")).unwrap();
                 if !ld.listener_agrees { writeln!(out, "#ENTRYDIFF\t{}", c.id).unwrap(); }
             }
         }
